@@ -649,6 +649,20 @@ class World:
             if mode == "r":
                 if before != after:
                     raise Violation("C03", "r-open-touched-files", f"open in 'r' changed files: {self.listing_diff(before, after)}", shape=sit)
+                # 'r' is strictly read-only also for the record object that nodes hand out as .file
+                via = None
+                try:
+                    fobj = obj["/"].file
+                    via = fobj.mode
+                    fobj.create_patch()
+                    escaped = True
+                except Exception:
+                    escaped = False
+                after2 = self.listing()
+                if escaped or after2 != after:
+                    raise Violation("C03", "r-mode-escape", f"record opened with 'r': node.file.create_patch() {'succeeded' if escaped else 'raised'} (node.file.mode = {via!r}), files afterwards: {self.listing_diff(after, after2)}", shape="file.create_patch")
+                if via != "r":
+                    raise Violation("C03", "r-mode-escape", f"record opened with 'r': node.file.mode is {via!r}", shape="file.mode")
             else:
                 if last_committed:
                     nf = f"{r.name}.p{self.next_index(r)}.ih5"
